@@ -709,9 +709,16 @@ def rule_ed_glob(ctx: RuleContext, p: Program, fns: list[FuncInfo], rid: str) ->
                 return txt
             pat_txt = expand(pat) + ' ' + expand(root)
             joined = pat is not None and 'filename' in pat_txt and ('dirname' in pat_txt or 'parent' in pat_txt)
-            ok = isinstance(rec, ast.Constant) and rec.value is True and joined
+            hid = _kw(c, 'include_hidden')
+            # frozen fact of the glob module (3.11+): include_hidden=True lets `*`, `?` and `**` match names that start with a dot
+            hidden = hid is not None and not (isinstance(hid, ast.Constant) and hid.value in (False, None))
+            extra = [k.arg for k in c.keywords if k.arg not in ('recursive', 'pathname', 'root_dir', 'include_hidden')]
+            ok = isinstance(rec, ast.Constant) and rec.value is True and joined and not hidden and not extra
             ctx.check(ok, rid, site, norm(c)[:90],
                       f'`{norm(c)[:90]}`: ' + ('the pattern is not taken relative to the directory of the including file' if not joined else
+                                               'include_hidden is switched on: wildcards now match dot-files and dot-directories (`include "*.bean"` pulls '
+                                               '.backup.bean into the ledger, and the editor rewrites it), which the include directive never names' if hidden else
+                                               f'keyword(s) {extra} change how the pattern is matched' if extra else
                                                'recursive=True is missing, so `**` in an include pattern matches one level only'), f.where,
                       note='glob.glob(join(dirname(path), filename), recursive=True)')
 
